@@ -172,7 +172,7 @@ let () =
            let a = match parse_sx args with SL l -> l | _ -> failwith "args not a list" in
            let i = parse_sx impl in
            (match judge (bytes_of_word op) a i with
-            | SL [SB _] -> Buffer.add_string out "ok"
+            | SL [SB w] -> Buffer.add_string out (String.concat "" (List.map (fun c -> String.make 1 (Char.chr (int_of_n c))) w))
             | SL [SB _; m] -> Buffer.add_string out "diff "; Buffer.add_string out (string_of_sx m)
             | v -> Buffer.add_string out "diff "; Buffer.add_string out (string_of_sx v))
        | _ -> Buffer.add_string out "badline");
